@@ -135,7 +135,7 @@ class Gen:
         return flat
 
 def build_case(rng, root, idx):
-    g = Gen(rng, os.path.join(root, 'c%d' % idx))
+    g = Gen(rng, os.path.join(root, 'c%d' % idx, 't'))     # one level of its own above the tree: `..` out of the tree's top stays inside this case
     main = os.path.join(g.root, 'main', 'main.asm')
     # how the caller spells the main file: in full; through a directory and back; through "."; or
     # relative, not there from the working directory and found through a caller-supplied directory
